@@ -24,11 +24,21 @@ type Mutex struct {
 	hb   hbMutex
 }
 
+//go:norace
 func (m *Mutex) Lock() {
-	vsched.Do(vsched.KLock, fmt.Sprintf("Mutex.Lock(%p)", m), func() bool { return !m.held }, func() { m.held = true })
+	vsched.DoObj(vsched.KLock, fmt.Sprintf("Mutex.Lock(%p)", m), m)
 	m.hb.acquire()
 }
 
+// OpEnabled / OpApply let the scheduler evaluate and grant the pending Lock.
+//
+//go:norace
+func (m *Mutex) OpEnabled(int) bool { return !m.held }
+
+//go:norace
+func (m *Mutex) OpApply(int) { m.held = true }
+
+//go:norace
 func (m *Mutex) TryLock() bool {
 	vsched.Yield()
 	if m.held {
@@ -39,6 +49,7 @@ func (m *Mutex) TryLock() bool {
 	return true
 }
 
+//go:norace
 func (m *Mutex) Unlock() {
 	if vsched.Aborting() {
 		return
@@ -59,12 +70,38 @@ type RWMutex struct {
 	hb       hbRWMutex
 }
 
+//go:norace
 func (m *RWMutex) Lock() {
-	vsched.Do(vsched.KWLockAnnounce, fmt.Sprintf("RWMutex.Lock(%p) announce", m), func() bool { return true }, func() { m.waitingW++ })
-	vsched.Do(vsched.KWLockAcquire, fmt.Sprintf("RWMutex.Lock(%p)", m), func() bool { return !m.writer && m.readers == 0 }, func() { m.writer = true; m.waitingW-- })
+	vsched.DoObj(vsched.KWLockAnnounce, fmt.Sprintf("RWMutex.Lock(%p) announce", m), m)
+	vsched.DoObj(vsched.KWLockAcquire, fmt.Sprintf("RWMutex.Lock(%p)", m), m)
 	m.hb.lock()
 }
 
+//go:norace
+func (m *RWMutex) OpEnabled(kind int) bool {
+	switch kind {
+	case vsched.KWLockAcquire:
+		return !m.writer && m.readers == 0
+	case vsched.KRLock:
+		return !m.writer && m.waitingW == 0
+	}
+	return true
+}
+
+//go:norace
+func (m *RWMutex) OpApply(kind int) {
+	switch kind {
+	case vsched.KWLockAnnounce:
+		m.waitingW++
+	case vsched.KWLockAcquire:
+		m.writer = true
+		m.waitingW--
+	case vsched.KRLock:
+		m.readers++
+	}
+}
+
+//go:norace
 func (m *RWMutex) Unlock() {
 	if vsched.Aborting() {
 		return
@@ -76,11 +113,13 @@ func (m *RWMutex) Unlock() {
 	m.writer = false
 }
 
+//go:norace
 func (m *RWMutex) RLock() {
-	vsched.Do(vsched.KRLock, fmt.Sprintf("RWMutex.RLock(%p)", m), func() bool { return !m.writer && m.waitingW == 0 }, func() { m.readers++ })
+	vsched.DoObj(vsched.KRLock, fmt.Sprintf("RWMutex.RLock(%p)", m), m)
 	m.hb.rlock()
 }
 
+//go:norace
 func (m *RWMutex) RUnlock() {
 	if vsched.Aborting() {
 		return
@@ -92,6 +131,7 @@ func (m *RWMutex) RUnlock() {
 	m.readers--
 }
 
+//go:norace
 func (m *RWMutex) TryLock() bool {
 	vsched.Yield()
 	if m.writer || m.readers > 0 {
@@ -102,6 +142,7 @@ func (m *RWMutex) TryLock() bool {
 	return true
 }
 
+//go:norace
 func (m *RWMutex) TryRLock() bool {
 	vsched.Yield()
 	if m.writer || m.waitingW > 0 {
@@ -113,11 +154,16 @@ func (m *RWMutex) TryRLock() bool {
 }
 
 // RLocker returns a Locker whose Lock/Unlock call RLock/RUnlock.
+//
+//go:norace
 func (m *RWMutex) RLocker() sync.Locker { return (*rlocker)(m) }
 
 type rlocker RWMutex
 
-func (r *rlocker) Lock()   { (*RWMutex)(r).RLock() }
+//go:norace
+func (r *rlocker) Lock() { (*RWMutex)(r).RLock() }
+
+//go:norace
 func (r *rlocker) Unlock() { (*RWMutex)(r).RUnlock() }
 
 // WaitGroup is a scheduler-visible wait group.
@@ -126,6 +172,7 @@ type WaitGroup struct {
 	hb hbWaitGroup
 }
 
+//go:norace
 func (w *WaitGroup) Add(d int) {
 	if vsched.Aborting() {
 		return
@@ -137,9 +184,17 @@ func (w *WaitGroup) Add(d int) {
 	w.hb.add(d)
 }
 
+//go:norace
 func (w *WaitGroup) Done() { w.Add(-1) }
 
+//go:norace
 func (w *WaitGroup) Wait() {
-	vsched.Do(vsched.KWait, fmt.Sprintf("WaitGroup.Wait(%p)", w), func() bool { return w.n == 0 }, nil)
+	vsched.DoObj(vsched.KWait, fmt.Sprintf("WaitGroup.Wait(%p)", w), w)
 	w.hb.wait()
 }
+
+//go:norace
+func (w *WaitGroup) OpEnabled(int) bool { return w.n == 0 }
+
+//go:norace
+func (w *WaitGroup) OpApply(int) {}
